@@ -201,7 +201,7 @@ Theorem ifold_law_proof : forall f a0 a1 rest z0 z1 zs,
     Ok (match ifold_spec f z0 (z1 :: zs) with Some r => itoa r | None => ErrorValue end).
 Proof.
   intros f a0 a1 rest z0 z1 zs H. unfold f_ifold.
-  rewrite (parses_no_const_bad _ _ H). inversion H; subst. rewrite H3.
+  inversion H; subst. rewrite H3.
   apply ifold_loop_spec. assumption.
 Qed.
 
@@ -221,7 +221,6 @@ Theorem ifold_bad_operand_proof : forall f args,
   f_ifold f args = Ok ErrorNum \/ f_ifold f args = Ok ErrorValue \/ f_ifold f args = Ok ErrorArgCount.
 Proof.
   intros f args H. unfold f_ifold. destruct args as [|a0 [|a1 rest]]; auto.
-  destruct (existsb const_bad_int (a0 :: a1 :: rest)); auto.
   destruct (atoi (a_val a0)) eqn:E0; auto.
   destruct (ifold_loop_bad f (a1 :: rest) z) as [H1|H1]; auto.
   destruct H as [x [[->|Hin] Hx]]; [congruence|]. exists x. auto.
@@ -242,10 +241,36 @@ Theorem ifold_badtype_proof : forall f a0 a1 rest, f <> Divi -> f <> Modi ->
   f_ifold f (a0 :: a1 :: rest) = Ok ErrorNum.
 Proof.
   intros f a0 a1 rest Hd Hm H. unfold f_ifold.
-  destruct (existsb const_bad_int (a0 :: a1 :: rest)); [reflexivity|].
   destruct (atoi (a_val a0)) eqn:E0; [|reflexivity].
   apply ifold_loop_bad_nodiv; auto.
   destruct H as [x [[->|Hin] Hx]]; [congruence|]. exists x. auto.
+Qed.
+
+(* the FIRST failing operand decides, whatever follows and whether operands are constants or groups:
+   after operands that parse and fold without a zero divisor, a non-integer gives <BAD-TYPE> and
+   (divi, modi) a zero gives <VALUE> *)
+Lemma ifold_loop_app f : forall pre zs acc acc' post, parses pre zs -> ifold_spec f acc zs = Some acc' ->
+  ifold_loop f acc (pre ++ post) = ifold_loop f acc' post.
+Proof.
+  induction pre as [|a r IH]; intros zs acc acc' post H S; inversion H; subst; cbn [app ifold_loop ifold_spec] in *.
+  - inversion S. reflexivity.
+  - rewrite H2. destruct (iop f acc y); [|discriminate]. eapply IH; eauto.
+Qed.
+
+Theorem ifold_first_failure_proof : forall f a0 pre z0 zs acc a post,
+  atoi (a_val a0) = Some z0 -> parses pre zs -> ifold_spec f z0 zs = Some acc ->
+  (atoi (a_val a) = None -> f_ifold f (a0 :: pre ++ a :: post) = Ok ErrorNum) /\
+  (atoi (a_val a) = Some 0 -> f = Divi \/ f = Modi -> f_ifold f (a0 :: pre ++ a :: post) = Ok ErrorValue) /\
+  (atoi (a_val a0) = Some z0 -> forall b rest, atoi (a_val b) = None -> f_ifold f (b :: a0 :: rest) = Ok ErrorNum).
+Proof.
+  intros f a0 pre z0 zs acc a post H0 Hp Hs.
+  assert (Shape : forall l, f_ifold f (a0 :: pre ++ a :: l) = ifold_loop f acc (a :: l)).
+  { intros l. unfold f_ifold. destruct (pre ++ a :: l) eqn:E; [destruct pre; discriminate|].
+    rewrite H0, <- E. eapply ifold_loop_app; eauto. }
+  repeat split.
+  - intros Ha. rewrite Shape. cbn [ifold_loop]. rewrite Ha. reflexivity.
+  - intros Ha Hf. rewrite Shape. cbn [ifold_loop]. rewrite Ha. destruct Hf as [-> | ->]; reflexivity.
+  - intros _ b rest Hb. unfold f_ifold. rewrite Hb. reflexivity.
 Qed.
 
 (* readable instances of the fold *)
